@@ -63,28 +63,6 @@ func (s *stdSvc) gTargetVia(rt *rapid.T, label string) AVia {
 	return v
 }
 
-// buildResponse answers a request received by a harness backend: Via lines,
-// Record-Route, From, To (+tag), Call-ID and CSeq copied as received.
-func buildResponse(req *RMsg, code int, reason, toTag string, extra string) []byte {
-	var sb strings.Builder
-	fmt.Fprintf(&sb, "SIP/2.0 %d %s\r\n", code, reason)
-	for _, h := range req.Hdrs {
-		switch h.Kind {
-		case hVia, hRR, hFrom, hCallID, hCSeq:
-			sb.WriteString(h.Name + ": " + h.Value + "\r\n")
-		case hTo:
-			v := h.Value
-			if toTag != "" && !strings.Contains(v, ";tag=") {
-				v += ";tag=" + toTag
-			}
-			sb.WriteString(h.Name + ": " + v + "\r\n")
-		}
-	}
-	sb.WriteString(extra)
-	sb.WriteString("Content-Length: 0\r\n\r\n")
-	return []byte(sb.String())
-}
-
 type c02Txn struct {
 	ID      string
 	UA      int
